@@ -104,6 +104,15 @@ def run_case(case: Dict[str, Any], res: ShardResult, scenario_for_replay: bool =
             clk.t += g
             if g > per:
                 saw_idle = True
+            if i % 3 == 1:
+                # somebody watches the bucket (logging, a dashboard): reading the level is not an arrival
+                clk.t -= g / 2
+                for _ in range(1 + i % 4):
+                    level = lim.tokens
+                    if not isinstance(level, int) or level < 0 or level > cap:
+                        bad.append(f"request {i}: tokens property reads {level!r} (capacity {cap})")
+                clk.t += g / 2
+                res.count("level_reads")
             w = lim.consume()
             res.count("consume_calls")
             el = clk.t - last
@@ -248,7 +257,8 @@ def gen_client_case(r) -> Dict[str, Any]:
     if r.random() < 0.5:
         outcomes = [r.choice(["ok", "http429", "http500", "timeout", "disconnect"]) for _ in range(r.randint(1, 6))]
     client = r.choice(["binance", "binance", "bitstamp", "wait"])
-    return {"client": client, "tpp": tpp, "period": per, "init": init, "arrivals": arrivals,
+    cancel_after = r.choice([None, 0.137, 0.4137, 1.0137]) if client == "wait" else None
+    return {"client": client, "cancel_after": cancel_after, "tpp": tpp, "period": per, "init": init, "arrivals": arrivals,
             "outcomes": outcomes if client != "wait" else ["ok"],
             "kinds": [r.choice(["pub", "spot", "cross", "isolated"]) for _ in range(r.randint(1, 5))]}
 
@@ -262,12 +272,23 @@ def run_client_case(case: Dict[str, Any], res: ShardResult) -> None:
         lim = tb.TokenBucketLimiter(case["tpp"], case["period"], case["init"])
         t0 = loop.time()
         failures = [0]
+        gave_up = [0]
         nth = [0]
         if case["client"] == "wait":
             # the limiter's own wait(): concurrent waiters are released one token apart, like callers that sleep the
             # time consume() returns
+            cancel_after = case.get("cancel_after")
+
             async def call():
-                await lim.wait()
+                if cancel_after:
+                    # an impatient caller gives up after a while and tries again: the slot it had taken is lost
+                    try:
+                        await asyncio.wait_for(lim.wait(), timeout=cancel_after)
+                    except asyncio.TimeoutError:
+                        gave_up[0] += 1
+                        await lim.wait()
+                else:
+                    await lim.wait()
                 transport.seen.append(loop.time())
         elif case["client"] == "binance":
             # one limiter for the whole client: public, spot, cross- and isolated-margin endpoints draw from it
@@ -317,12 +338,27 @@ def run_client_case(case: Dict[str, Any], res: ShardResult) -> None:
     a = float(case["init"])
     last = 0.0
     exp = []
-    for at in case["arrivals"]:
+    import heapq
+    ca = case.get("cancel_after") if case["client"] == "wait" else None
+    pending = [(at, k, True) for k, at in enumerate(case["arrivals"])]      # (time, tie-break, may give up)
+    heapq.heapify(pending)
+    retries = 0
+    while pending:
+        at, k, first = heapq.heappop(pending)
         a = min(case["tpp"], a + (at - last) * rate)
         last = at
         a -= 1
-        exp.append(at + max(0.0, -a) / rate)
+        wait = max(0.0, -a) / rate
+        if ca and first and wait > ca + 1e-9:
+            retries += 1
+            heapq.heappush(pending, (at + ca, 10 ** 6 + k, False))         # the token it took stays taken
+        else:
+            exp.append(at + wait)
     exp.sort()
+    res.count("waiters_that_gave_up", gave_up[0])
+    if ca and retries != gave_up[0]:
+        exp = []      # the reference and the run disagree on who gave up (a boundary within float noise): not judged
+        seen = []
     bad = None
     if len(seen) != len(exp):
         bad = f"{len(exp)} requests issued but {len(seen)} reached the transport"
